@@ -37,7 +37,7 @@ DIMS = {
     "rad_gt": ["none", "rot", "nonuniform", "skew", "translate", "rotscale"],
     "rad_spread": ["pad", "repeat", "reflect"],
     "rad_stops": ["two", "three", "stopop"],
-    "grp": ["g05", "none", "nested", "gradgrp", "reusedgrp", "siblings", "emptyglyph"],
+    "grp": ["g05", "none", "nested", "gradgrp", "reusedgrp", "twocopies", "siblings", "emptyglyph"],
     "seqlen": [1, 2, 3],
     "nglyphs": [2, 1, 3],
     "where": ["other", "same", "both"],
@@ -242,6 +242,9 @@ def mk(a):
         b_nodes = [copy, Group(0.7, [ov, tri])]
     elif g == "reusedgrp":
         b_nodes = [Group(0.5, [copy, tri]), ov]
+    elif g == "twocopies":  # a group whose members are both reused: a copy of the donor, then a copy of the triangle before the group
+        tri_b = Shape(P(OUT["tri"], aff.tr(12, 8)), Solid("orange"), label="tri-copy")
+        b_nodes = [tri, Group(0.5, [copy, tri_b]), ov]
     elif g == "siblings":
         b_nodes = [Group(0.5, [copy, tri]), Group(0.8, [ov, Shape(P(OUT["tri"], aff.tr(50, 20)), Solid("yellow"), label="tri2")])]
     else:
